@@ -181,7 +181,15 @@ fn g_case(src: &mut Src, obs: &mut Obs) -> CaseResult {
             obs.labelf(format!("encode:{}", kind.name()));
             let touches_gated = matches!(kind, rs::Kind::GetInfo | rs::Kind::CredentialManagement | rs::Kind::LargeBlobs);
             let line = match rs::build(kind, &model) {
-                Ok(r) => hex(&rs::serialize_full(&r)),
+                Ok(r) => {
+                    // directly, and as a handler's answer through the dispatch entry point
+                    let via = match crate::echo::through_dispatch(&r, src.below(2)) {
+                        Ok(Ok(r2)) => hex(&rs::serialize_full(&r2)),
+                        Ok(Err(st)) => format!("STATUS-{:02x}", st),
+                        Err(e) => e,
+                    };
+                    format!("{} via-dispatch {}", hex(&rs::serialize_full(&r)), via)
+                }
                 Err(e) => format!("BUILD-ERROR {}", e),
             };
             if touches_gated {
@@ -320,7 +328,7 @@ pub fn gens() -> Vec<Gen> {
     vec![G_CASE]
 }
 
-pub const RULE: &str = "A fixed, seed-determined corpus (the proptest seed is derived from VERIF_SEED and the property only, not from the configuration, and every generator is switched to its common-members-only mode, so all configurations generate the same cases): responses of every kind and stand-alone serialisable types built from feature-independent members (encode transcript: hex of Response::serialize / cbor_serialize output); request messages of every parameter-bearing command, well-formed and structurally mutated (decode transcript: the decoded value projected by the harness onto the members common to all configurations and rendered as reference CBOR, or the status code); authenticator data of both flavours; CTAP1 APDUs. LargeBlobs responses use only an absent/empty config (its capacity is documented to be feature-dependent). Oracle: the transcripts written by the 8 wire configurations and by the all-features+arbitrary(std) build are identical line for line (compared by the driver; the first differing case is the replay). Non-trivial: a case touching a struct that has feature-gated members in some configuration (GetInfo, CtapOptions, CredentialManagement response, the three extension maps, MakeCredential/GetAssertion requests).";
+pub const RULE: &str = "A fixed, seed-determined corpus (the proptest seed is derived from VERIF_SEED and the property only, not from the configuration, and every generator is switched to its common-members-only mode, so all configurations generate the same cases): responses of every kind and stand-alone serialisable types built from feature-independent members (encode transcript: hex of Response::serialize / cbor_serialize output, for responses both directly and after travelling through call_ctap2 / Rpc::call as the answer of an echoing authenticator); request messages of every parameter-bearing command, well-formed and structurally mutated (decode transcript: the decoded value projected by the harness onto the members common to all configurations and rendered as reference CBOR, or the status code); authenticator data of both flavours; CTAP1 APDUs. LargeBlobs responses use only an absent/empty config (its capacity is documented to be feature-dependent). Oracle: the transcripts written by the 8 wire configurations and by the all-features+arbitrary(std) build are identical line for line (compared by the driver; the first differing case is the replay). Non-trivial: a case touching a struct that has feature-gated members in some configuration (GetInfo, CtapOptions, CredentialManagement response, the three extension maps, MakeCredential/GetAssertion requests).";
 pub const ASSUMPTIONS: &[&str] = &["the projection (c16::project) reads only members that exist in every configuration", "Certifications exists only under get-info-full and is therefore not compared"];
 
 pub fn run(ctx: &mut Ctx) {
